@@ -301,12 +301,18 @@ fn emit_logs(point: &str, phase: &str, s: &str, att: i64, label: &str) {
         );
         // every other log is emitted from inside a user span nested in the
         // step / hook span (`#[instrument]`-style helpers do that)
+        // (levels vary: `init_tracing()` passes INFO and above)
+        let emit = || match k % 3 {
+            0 => tracing::info!("{msg}"),
+            1 => tracing::warn!("{msg}"),
+            _ => tracing::error!("{msg}"),
+        };
         if k % 2 == 1 {
             tracing::info_span!("user_helper", k).in_scope(|| {
-                tracing::info_span!("inner").in_scope(|| tracing::info!("{msg}"));
+                tracing::info_span!("inner").in_scope(emit);
             });
         } else {
-            tracing::info!("{msg}");
+            emit();
         }
     }
 }
@@ -738,7 +744,13 @@ fn run_case_inner(
     let collection = step::Collection::<TWorld>::new()
         .given(loc(1), re(r"^(\S+) (bg|step) (\d+) run$"), step_fn)
         .given(loc(2), re(r"^(\S+) (bg|step) (\d+) ambig$"), step_fn)
-        .given(loc(3), re(r"^.* ambig$"), step_fn);
+        .given(loc(3), re(r"^.* ambig$"), step_fn)
+        .when(loc(1), re(r"^(\S+) (bg|step) (\d+) run$"), step_fn)
+        .when(loc(2), re(r"^(\S+) (bg|step) (\d+) ambig$"), step_fn)
+        .when(loc(3), re(r"^.* ambig$"), step_fn)
+        .then(loc(1), re(r"^(\S+) (bg|step) (\d+) run$"), step_fn)
+        .then(loc(2), re(r"^(\S+) (bg|step) (\d+) ambig$"), step_fn)
+        .then(loc(3), re(r"^.* ambig$"), step_fn);
 
     let cfg = &case.cfg;
     let base = runner::Basic::<TWorld>::default().steps(collection);
